@@ -47,6 +47,14 @@ def model_call(c):
     return m
 
 
+def plen(c, sandbox):
+    """Buffer length of a prestatname call; 'exact', 'exact-1', 'exact+1' refer to the length of the pre-open's path."""
+    ln = c.get("len", 4096)
+    if isinstance(ln, str):
+        ln = len(sandbox.encode()) + {"exact": 0, "exact-1": -1, "exact+1": 1}[ln]
+    return ln
+
+
 def script_line(c, sandbox):
     k, abi = c["call"], c.get("abi", "p")
     if k == "open":
@@ -67,7 +75,7 @@ def script_line(c, sandbox):
     if k in ("tell", "filestat", "close", "prestat", "fdstat"):
         return "%s %s %d" % (k, abi, c["fd"])
     if k == "prestatname":
-        return "prestatname %s %d %d" % (abi, c["fd"], c.get("len", 4096))
+        return "prestatname %s %d %d" % (abi, c["fd"], plen(c, sandbox))
     if k in ("sync", "datasync"):
         return "%s %s %d" % (k, abi, c["fd"])
     if k == "readdir":
@@ -180,10 +188,13 @@ def expected_writes(c, m, sandbox):
         n = min(len(t), o["buflen"])
         put(R1, le(n, 4))
         put(RBUF, list(t[:n]))
+    elif k == "fdstat":
+        free = set(range(STAT + 8, STAT + 24))                 # the two rights masks
+        put(STAT, [o["ftype"], 0] + le(o["flags"], 2) + [0, 0, 0, 0])
     elif k == "prestat":
         put(R1, le(0, 4) + le(len(sandbox.encode()), 4))
     elif k == "prestatname":
-        n = min(len(sandbox.encode()), c.get("len", 4096))
+        n = min(len(sandbox.encode()), plen(c, sandbox))
         put(PATH2, list(sandbox.encode()[:n]))
     return exp, free
 
